@@ -11,6 +11,7 @@ Fixpoint sorted_ops (ops : list op) (c : Z) : Prop :=
   | [] => True
   | ONewline :: r => sorted_ops r 0
   | OMap gc _ _ _ _ :: r => c <= gc /\ sorted_ops r gc
+  | ONull gc :: r => c <= gc /\ sorted_ops r gc
   end.
 
 (* column of the last mapping on the current line after ops, starting from c *)
@@ -19,22 +20,24 @@ Fixpoint end_col (ops : list op) (c : Z) : Z :=
   | [] => c
   | ONewline :: r => end_col r 0
   | OMap gc _ _ _ _ :: r => end_col r gc
+  | ONull gc :: r => end_col r gc
   end.
 
 Lemma sorted_ops_snoc : forall a c o,
   sorted_ops a c ->
-  match o with ONewline => True | OMap gc _ _ _ _ => end_col a c <= gc end ->
+  match o with ONewline => True | OMap gc _ _ _ _ => end_col a c <= gc | ONull gc => end_col a c <= gc end ->
   sorted_ops (a ++ [o]) c.
 Proof.
   induction a as [|x a IH]; intros c o Ha Ho.
   - destruct o; cbn in *; auto.
-  - destruct x as [|gc si ol oc nm]; cbn [app sorted_ops end_col] in *.
+  - destruct x as [|gc si ol oc nm|gc]; cbn [app sorted_ops end_col] in *.
     + apply IH; assumption.
+    + destruct Ha as [H1 H2]. split; [exact H1|]. apply IH; assumption.
     + destruct Ha as [H1 H2]. split; [exact H1|]. apply IH; assumption.
 Qed.
 
 Lemma end_col_snoc a c o :
-  end_col (a ++ [o]) c = match o with ONewline => 0 | OMap gc _ _ _ _ => gc end.
+  end_col (a ++ [o]) c = match o with ONewline => 0 | OMap gc _ _ _ _ => gc | ONull gc => gc end.
 Proof.
   revert c. induction a as [|x a IH]; intro c.
   - destruct o; reflexivity.
@@ -48,8 +51,14 @@ Lemma abs_of_sorted_aux : forall ops line c,
   sorted_abs (prev :: abs_of ops line) = true.
 Proof.
   induction ops as [|o ops IH]; intros line c Hs prev Hl Hc; [reflexivity|].
-  destruct o as [|gc si ol oc nm]; cbn [abs_of sorted_ops] in *.
+  destruct o as [|gc si ol oc nm|gc]; cbn [abs_of sorted_ops] in *.
   - apply (IH (line + 1) 0 Hs); [lia|]. intro; lia.
+  - destruct Hs as [H1 H2].
+    cbn [sorted_abs]. apply andb_true_iff. split.
+    + unfold abs_pos_le. cbn. destruct (Z.eq_dec (a_gline prev) line) as [E|E].
+      * specialize (Hc E). apply orb_true_iff. right. apply andb_true_iff. split; lia.
+      * apply orb_true_iff. left. lia.
+    + apply (IH line gc H2); cbn; [lia|intro; lia].
   - destruct Hs as [H1 H2].
     cbn [sorted_abs]. apply andb_true_iff. split.
     + unfold abs_pos_le. cbn. destruct (Z.eq_dec (a_gline prev) line) as [E|E].
